@@ -337,7 +337,7 @@ def r04_7(prog: Program, rep):
            "the ref-delta branch of the chain walk only detects a delta based on itself: a cycle of two or more crafted "
            "ref deltas loops forever with unbounded memory", w.lineno)
     ofs_branch = [x for x in ast.walk(w) if isinstance(x, ast.If) and "OFS_DELTA" in norm(x.test)]
-    dec = any("base_offset - delta_offset" in norm(x, 100000) for x in ofs_branch)
+    dec = any("base_offset - delta_offset" in norm(x, 100000) or "base_offset -= delta_offset" in norm(x, 100000) for x in ofs_branch)
     rep.ob("R04.7", PACK, f.qual, "ofs-delta branch strictly decreases the offset (delta_offset >= 1 by R04.5)", dec, "", w.lineno)
 
 
